@@ -3,7 +3,7 @@ import Grol.Eval.RegRewrite
 /-
 Driver side of the `regrewrite` suite (C05): harness/cmd/harness/regrewrite.go.
 
-  input: <noReg 0|1>;<registers in use>;<hex name>:<isInt>,…;<hex text>
+  input: <noReg 0|1>;<registers in use>;<hex name>:<isInt>[:<isExt>],…;<hex text>
   obs:   <ast of the body> @@ k<kept>i<idx>/… @@ <ast of the final body>     (P: parse error, E: the call is refused)
 
 The real code is `(*State).extendFunctionEnv` (driven by the hook `eval.VerifSetupRegisters`); what is
@@ -13,8 +13,8 @@ returns (the number of replaced identifiers = the register nodes in it).
 ast.Modify with the ModifyRegister callback).
 Statement (evaluated on the implementation's observation, using only the SPECIFICATION `refuses` /
 `substAll` / `registerEligible`, never `modifyR`): for every candidate in turn
-  * kept ⇔ integer value ∧ name non-empty ∧ registers enabled ∧ a register is free ∧ not a constant name ∧
-    ¬ refuses; the register is then the next free one, and the number of its nodes in the final tree is the
+  * kept ⇔ integer value ∧ name non-empty ∧ registers enabled ∧ a register is free ∧ not a constant name ∧ not a
+    reserved name (`self`, `info`, a registered extension function) ∧ ¬ refuses; the register is then the next free one, and the number of its nodes in the final tree is the
     number of identifier nodes of that name;
   * the final tree is the body in which exactly the identifier nodes of the kept names became their registers
     (so erasing the registers gives back the body).
@@ -96,9 +96,12 @@ structure Case where
   used : Nat
   names : List (String × Bool)
 
+/-- `<hex name>:<isInt>[:<isExt>]`; a candidate named like a registered extension function is never eligible
+(`object.ReservedName`): the flag the model calls `isInt` is "integer value and not an extension name" -/
 def parseName (ni : String) : Option (String × Bool) :=
   match splitOn ni ':' with
   | [h, i] => do pure (← hexStr h, i == "1")
+  | [h, i, x] => do pure (← hexStr h, i == "1" && x != "1")
   | _ => Option.none
 
 def parseInput (inp : String) : Option Case :=
